@@ -626,7 +626,6 @@ def rule_random(chk, prog, tier):
             key = 'random: ' + text.strip().replace('\n', ' \\n ')
             if verdict == 'unsupported': raise AnalysisBroken('pp interpretation: %s on %r' % (det, text))
             if verdict in ('unjudged', 'strtok'): unj += 1; continue        # argument-count rules differ between C11 and C23; the strtok class is KF-C12-2 (reported by C12.e)
-            if verdict == 'accepts' and det == 'too many arguments': unj += 1; continue       # KF-C12-1 class (reported by C12.e)
             msg = {'accepts': 'ill-formed (%s) but accepted' % det, 'rejects': 'valid input rejected: %s' % det, 'differs': det}.get(verdict, '')
             r.instance(verdict == 'ok', key, 'pp.c', msg)
     r.samples.append('%d programs, %d not judged' % (len(texts), unj))
